@@ -141,22 +141,22 @@ def checkGraph (c : Case) : CaseResult := Id.run do
   let mut modelNote := ""
   let mut modelDiverges := false
   if n ≤ 64 then
-    let MF := floydWarshall g
-    let MF' := floydWarshallFixed g
-    let eqO := (matEq n MF FW).isNone
-    let eqF := (matEq n MF' FW).isNone
-    stats := stats ++ [("fwmodel.compared", 1), ("fwmodel.agrees-as-coded", if eqO then 1 else 0),
-      ("fwmodel.agrees-repaired", if eqF then 1 else 0),
-      ("fwmodel.as-coded-and-repaired-differ", if (matEq n MF MF').isSome then 1 else 0)]
-    modelNote := if eqO then " model-as-coded=agrees" else if eqF then " model-repaired=agrees" else " model=differs"
-    modelDiverges := !eqO && !eqF
+    let MF := floydWarshall g            -- the code in /repo now
+    let MO := floydWarshallOrig g        -- the code before the fix (plain assignment)
+    let eqF := (matEq n MF FW).isNone
+    let eqO := (matEq n MO FW).isNone
+    stats := stats ++ [("fwmodel.compared", 1), ("fwmodel.agrees-current", if eqF then 1 else 0),
+      ("fwmodel.agrees-prefix-code", if eqO then 1 else 0),
+      ("fwmodel.current-and-prefix-differ", if (matEq n MF MO).isSome then 1 else 0)]
+    modelNote := if eqF then " model-current=agrees" else if eqO then " model-prefix-code=agrees" else " model=differs"
+    modelDiverges := !eqF
   if !checkApsp g FW.get then
     let cls := if loops && par then "selfloop+parallel" else if loops then "selfloop" else if par then "parallel" else "simple"
     return { verdict := .specfail s!"alg=floyd_warshall graphclass={cls} {explain g FW.get}{modelNote}", nontrivial := nontrivial, stats := stats }
   if let some (i, j) := matEq n FW JO then
     return { verdict := .specfail s!"alg=floyd_warshall-vs-johnsons reason=disagree i={i} j={j}", nontrivial := nontrivial, stats := stats }
   if modelDiverges then
-    return { verdict := .diverge "model floyd_warshall (neither the as-coded nor the repaired initialisation) differs from C++", nontrivial := nontrivial, stats := stats }
+    return { verdict := .diverge s!"model floyd_warshall differs from C++{modelNote}", nontrivial := nontrivial, stats := stats }
   return { verdict := .ok, nontrivial := nontrivial, stats := stats }
 
 /-! pairing heap operation sequences against a multiset -/
